@@ -36,8 +36,10 @@ def read_payload():
 
 
 def emit(result):
-    sys.stdout.write('\n' + json.dumps(result, default=str) + '\n')
-    sys.stdout.flush()
+    # the REAL stdout: a watchdog may report while the code under test runs inside quiet()
+    out = sys.__stdout__ if sys.__stdout__ is not None else sys.stdout
+    out.write('\n' + json.dumps(result, default=str) + '\n')
+    out.flush()
 
 
 def run(coro):
